@@ -315,7 +315,7 @@ def check_analyze(j, rc, out, err):
     if len(segs) > 1:
         st = dict(kv.split("=") for kv in segs[-2].split())
     else:
-        st = {"n": "0", "mean": "0000000000000000", "sd": "0000000000000000", "min": "7fefffffffffffff", "max": "ffefffffffffffff"}
+        st = {"n": "0", "mean": "0000000000000000", "sd": "0000000000000000", "min": "7ff0000000000000", "max": "fff0000000000000"}
     med = tail.split("median=")[1].split()[0]
     mode = tail.split("mode=")[1].split()[0]
     qv = tail.split("q[")[1].rstrip("]").split(",")
